@@ -624,6 +624,13 @@ func (a *asset) consolidateAsset(logger *slog.Logger) error {
 		// This is not an integral number of milliseconds, so we should drop this asset
 		return fmt.Errorf("cannot match loop duration %d for asset %s rep %s", a.LoopDurMS, a.AssetPath, refRep.ID)
 	}
+	for _, rep := range a.Reps {
+		for i := 1; i < len(rep.Segments); i++ {
+			if rep.Segments[i].StartTime != rep.Segments[i-1].EndTime {
+				return fmt.Errorf("representation %s: segment %d does not start where the previous one ends", rep.ID, i+1)
+			}
+		}
+	}
 	badPreEncrypted := false
 	for _, rep := range a.Reps {
 		if rep.ContentType != refRep.ContentType && !rep.PreEncrypted {
